@@ -29,7 +29,9 @@ type renderStream struct {
 	Entries []renderEntry     `json:"entries"`
 }
 
-var c15MsgAtoms = []string{"hello", " ", "\n", "\r\n", "\r", "world", "\x00", "\xff\xfe", "ünï", "tab\t", "a=b", "[x]", "\n\n", "end", "{\"k\":1}", "%s", "\\n"}
+var c15MsgAtoms = []string{"hello", " ", "\n", "\r\n", "\r", "world", "\x00", "\xff\xfe", "ünï", "tab\t", "a=b", "[x]", "\n\n", "end", "{\"k\":1}", "%s", "\\n",
+	// messages that carry their own escape sequences: they are message bytes like any other
+	"\x1b[31m", "\x1b[0m", "\x1b[1;32mok", "\x1b[2K", "\x1b"}
 
 func genRenderData(r *vk.RNG, maxContainers int) []renderStream {
 	nc := r.Range(0, maxContainers)
@@ -159,6 +161,15 @@ func matchRecord(out []byte, pos int, e renderEntry, showTS, showName, color boo
 
 // consumeOutput decides whether out is a concatenation of exactly the expected records in an order
 // consistent with timestamps (records with equal timestamps in any order; backtracking inside a group).
+func anyEscMsg(es []renderEntry) bool {
+	for _, e := range es {
+		if strings.IndexByte(e.Msg, 0x1b) >= 0 {
+			return true
+		}
+	}
+	return false
+}
+
 func consumeOutput(out []byte, entries []renderEntry, showTS, showName, color bool) (string, map[string]map[string]bool) {
 	sorted := append([]renderEntry(nil), entries...)
 	sort.SliceStable(sorted, func(i, j int) bool { return sorted[i].TS < sorted[j].TS })
@@ -275,7 +286,8 @@ func runC15(r *vk.Run) {
 				c.Fail("", "renderResult failed: "+err.Error(), det())
 				continue
 			}
-			if !color && bytes.IndexByte(out, 0x1b) >= 0 {
+			// messages with escape bytes of their own are covered by the exact comparison below
+			if !color && !anyEscMsg(all) && bytes.IndexByte(out, 0x1b) >= 0 {
 				c.Fail("", "colour is off but the output contains an escape sequence", det())
 				continue
 			}
@@ -350,7 +362,7 @@ func runC15(r *vk.Run) {
 			c.Fail("", fmt.Sprintf("plugin failed with %d containers (timestamp=%v container=%v color=%v): exit=%d %s", nc, showTS, showName, color, pr.Exit, trunc(string(pr.Stderr), 400)), det)
 			return
 		}
-		if !color && bytes.IndexByte(pr.Stdout, 0x1b) >= 0 {
+		if !color && !anyEscMsg(all) && bytes.IndexByte(pr.Stdout, 0x1b) >= 0 {
 			c.Fail("", "e2e: colour off but output contains an escape sequence", det)
 			return
 		}
